@@ -1,7 +1,7 @@
 #!/usr/bin/env python3
 """Regenerates /verif/MANIFEST.json from the table below."""
 import json
-HIST = "E-HIST: seeded single-client histories over the store decorator, reference model as oracle, store faults / restarts / simulated crashes injected per run"
+HIST = "E-HIST: seeded single-client histories over the store decorator, reference model as oracle, store faults / restarts / simulated crashes / abandoned operations injected per run"
 checks = {
  "C01": ("exploration", HIST, "deterministic simulation: seeded operation histories with injected store faults, restarts and crashes, compared with a reference model after every operation", "sim §6 C01"),
  "C02": ("exploration", HIST + "; twin collections differing only in index sets", "deterministic simulation: mirrored histories on twin collections that differ only in their indexes, pairwise comparison plus reference model", "sim §6 C02"),
@@ -14,7 +14,7 @@ checks = {
  "C13": ("exploration", HIST + "; catalog mode with adversarial names", "deterministic simulation: catalog histories with adversarial names, whole-database comparison after every write", "sim §6 C13"),
  "C14": ("exploration", HIST + "; index-catalog mode with prefix/dotted field names", "deterministic simulation: index create/drop histories over prefix-related and dotted fields, queries through sibling indexes against the model", "sim §6 C14"),
  "C19": ("exploration", HIST + "; export/import mode with generated bad files", "deterministic simulation: export/import histories with generated file faults and store faults, JSON-typed model", "sim §6 C19"),
- "C20": ("exploration", HIST + "; nasty-shapes mode, recover() around every public call, API after Close", "deterministic simulation: every public call of every run under recover(), nasty criteria shapes on indexed collections, API after Close, self-deadlock detection in the simulated store", "sim §6 C20"),
+ "C20": ("exploration", HIST + "; nasty-shapes mode, recover() around every public call, API after Close", "deterministic simulation: every public call of every run under recover(), nasty criteria shapes on indexed collections, API after Close, a worker process killed by an operation (Go fatal error, refused allocation under a capped address space) re-executed in a child process and reported as C20/process-death, self-deadlock detection in the simulated store", "sim §6 C20"),
 }
 m = {
  "version": 1,
